@@ -50,6 +50,8 @@ def generate(tier, seed):
         if i % 3 == 1:
             # the model is assembled incrementally and one create_reaction call with a delay is refused on the way
             # (a delay parameter named like a species / a delay dictionary without its key / an unknown delay type)
+            if len(sp["reactions"]) >= 2:
+                sp["init_after"] = rnd.randint(1, len(sp["reactions"]) - 1)      # initialised once before the last reactions are added
             sp["poison"] = [[rnd.randint(0, len(sp["reactions"]) - 1), rnd.choice(["delay_param_species_name", "new_species_bad_delay", "unknown_delay_type", "hill_delay"])]]
         cases.append({"kind": "exact", "spec": sp, "grid": {"t0": 0.0, "dt": dt, "n": n}, "slot": rnd.choice(["equal", "equal", "finer", "coarser"]),
                       "seeds": [util.seed64(PROPERTY, tier, seed, "e%d_%d" % (i, j)) % (2 ** 31) for j in range(nseeds)], "V": gen.nice(rnd, 0.4, 3)})
